@@ -470,6 +470,9 @@ func runOwnership(e *ev.Env) {
 	e.Corpus("config-file-over-redirect-limit", func(c *ev.Case) {
 		cfgCombo(e, c, &cfgCase{Payload: "file", Entry: "client.Custom", Method: "GET", DelayMs: 20, MaxRedirects: 1, Hops: 2, Tag: "t"})
 	})
+	e.Corpus("config-value-used-three-times", func(c *ev.Case) {
+		cfgCombo(e, c, &cfgCase{Payload: "none", Entry: "client.Method", Method: "GET", DelayMs: 10, Tag: "t", Uses: 3})
+	})
 	e.Cases("config", e.N(600, 60000), func(c *ev.Case) {
 		cfgCombo(e, c, nil)
 	})
